@@ -60,6 +60,7 @@ PROBES = [
     "source_random",
     "patch_mode_create",
     "patch_mode_divide",
+    "refusal_on_all_ranks",
 ]
 REAL_VS_STUB = dict(
     real="all of yaw incl. the MPI branches (_mpi_root_task/_mpi_worker_task, WorkerManager, scatter_data_chunk, "
@@ -101,7 +102,7 @@ def gen_case(prng: Prng, tier: str) -> dict:
         mw_create=prng.choice([None, None, 2, size, size + 3]),
         mw_measure=prng.choice([None, None, 1, 2, size, size + 3]),
         progress=prng.chance(1, 5),
-        ops=["create", "reopen", "trees", "cross", "auto", "hist", "io", "iter"],
+        ops=["create", "reopen", "trees", "cross", "auto", "hist", "io", "iter"] + (["refuse"] if prng.chance(1, 2) else []),
         randoms=prng.choice([["rref", "runk"], ["runk"], ["rref"]]),
         count_rr=prng.chance(1, 2),
         ntasks=prng.randint(0, 9),
@@ -126,7 +127,7 @@ def case_size(case: dict) -> int:
 def shrinks(case: dict):
     ops = case["ops"]
     # drop whole stages (later stages first; "create" is needed by everything)
-    for op in ("iter", "io", "hist", "auto", "cross", "trees", "reopen"):
+    for op in ("refuse", "iter", "io", "hist", "auto", "cross", "trees", "reopen"):
         if op in ops:
             c = copy.deepcopy(case)
             c["ops"] = [o for o in ops if o != op]
@@ -260,6 +261,15 @@ def _create_all(case: dict, inp: dict, root: str, state: dict, cats: dict) -> No
             )
     for name in scenes.CATS:
         state[f"created.{name}"] = orc.catalog_state(cats[name])
+    if "refuse" in case["ops"] and len(centers) >= 3:
+        # a catalog with another patch index set: measurements must refuse it on every rank
+        rec = records["runk"]
+        sub = wl.ensure_nonempty_centers(rec, centers[:-1])
+        if len(sub) == len(centers) - 1:
+            cats["bad"] = yaw.Catalog.from_dataframe(
+                os.path.join(root, "bad"), wl.make_dataframe(rec), patch_centers=yaw.AngularCoordinates(sub),
+                **wl.column_kwargs(rec), **common
+            )
 
 
 def _measure_ops(case: dict, root: str, state: dict, *, mw, io_dir: str) -> None:
@@ -319,6 +329,14 @@ def _measure_ops(case: dict, root: str, state: dict, *, mw, io_dir: str) -> None
         # Configuration.to_file/from_file is broken on the pinned tree even in a
         # single process (C11 territory, DESIGN.md 5) and is therefore not part
         # of the program
+    if "refuse" in ops and os.path.isdir(os.path.join(root, "bad")):
+        bad = yaw.Catalog(os.path.join(root, "bad"), **kw)
+        try:
+            yaw.crosscorrelate(config, cats["ref"], bad, unk_rand=bad, progress=progress, **kw)
+            state["refuse"] = "no_raise"
+        except Exception as err:  # noqa: BLE001 - the refusal we expect, on every rank
+            state["refuse"] = "raised"
+            state["refuse.type"] = type(err).__name__
     if "iter" in ops:
         res = list(parallel.iter_unordered(_probe_func, range(case["ntasks"]), func_args=(3,), **kw))
         if parallel.on_root():
@@ -391,6 +409,8 @@ def run_case(case: dict) -> dict:
         if case["rref_source"] == "random":
             probes["source_random"] = 1
         probes[f"patch_mode_{case['ref_mode']}"] = 1
+        if all(states[r].get("refuse") == "raised" for r in range(size)):
+            probes["refusal_on_all_ranks"] = 1
         races = sim.file_races()
         if races:
             probes["file_races"] = len(races)
@@ -472,7 +492,7 @@ def _degenerate_after_the_fact(case, inp, states, errs, simroot, root) -> bool:
         strip_derived(refroot, meta=False, trees=True)
         shutil.rmtree(os.path.join(refroot, "io"), ignore_errors=True)
         with fakempi.single_rank():
-            _measure_ops(case, refroot, {}, mw=1, io_dir=os.path.join(refroot, "io"))
+            _measure_ops(dict(case, progress=False), refroot, {}, mw=1, io_dir=os.path.join(refroot, "io"))
     except Exception as err2:  # noqa: BLE001
         return type(err2).__name__ == type(exc).__name__
     finally:
@@ -553,7 +573,7 @@ def _evaluate(case: dict, inp: dict, simroot: str, root: str, states: dict, sim)
                 return _sig(case, "create", "result_differs", catalog=name), f"catalog returned on rank 0 differs from its cache: {msg}"
         # ---- single-rank reference of everything after creation
         try:
-            _measure_ops(case, refroot, ref_state, mw=1, io_dir=os.path.join(refroot, "io"))
+            _measure_ops(dict(case, progress=False), refroot, ref_state, mw=1, io_dir=os.path.join(refroot, "io"))
         except Exception as err:  # noqa: BLE001 - reference raises: not a verdict (DESIGN 2.6a)
             return "discard", f"reference raises {type(err).__name__}"
     for key in ref_state:
@@ -567,12 +587,14 @@ def _evaluate(case: dict, inp: dict, simroot: str, root: str, states: dict, sim)
     # ---- every rank: broadcast objects equal rank 0's
     for r in range(1, case["size"]):
         for key in st0:
-            if key.split(".")[0] in ("created", "reopen", "hist", "io") and key != "io.corrfunc.equal":
+            if key.split(".")[0] in ("created", "reopen", "hist", "io", "refuse") and key != "io.corrfunc.equal":
                 if key not in states[r]:
                     return _sig(case, key.split(".")[0], "rank_differs"), f"rank {r} has no result {key}"
                 msg = orc.states_equal(st0[key], states[r][key], key)
                 if msg:
                     return _sig(case, key.split(".")[0], "rank_differs"), f"rank {r} differs from rank 0: {msg}"
+    if st0.get("refuse") == "no_raise":
+        return _sig(case, "refuse", "no_raise"), "crosscorrelate accepted catalogs with different patch index sets"
     # ---- every task executed exactly once, on a worker rank
     if "iter" in case["ops"]:
         plog = sim.objects.get("probe_log", [])
